@@ -17,9 +17,10 @@ TRUSTED_BASE = [
     "extraction (ExtrOcamlBasic only) + OCaml 4.13.1 + drv_c10.ml / drv_journal.ml string conversions",
     "harness c10.go (generator, rendering of dates, decimal.String(), account and commodity names)",
     "shopspring/decimal is modelled by Model/Dec.v (add, neg, quo_rem, String) and checked only by correspondence",
-    "the executable clauses 4 (dates/descriptions/part count) and 5 (targets) of accrual_verdict are evaluated on "
-    "the Go output but not proved sound (clauses 1-3 are: C10_verdict_sound); their content is proved of the model "
-    "(C10_dates, C10_targets_kept) and tied to the code by string equality of model and Go output",
+    "the executable statement accrual_verdict is proved sound (C10_verdict_sound, _targets, _dates) and complete for "
+    "the model (C10_model_meets_spec); its clause 4 is the order-free form of C10_dates (multiset of date/description/"
+    "leg account/commodity); the ordered statement C10_dates is proved of the model and tied to the code by string "
+    "equality of model and Go output",
 ]
 ASSUMPTIONS = ["window start <= end and start not 0001-01-01 (outside: C10_empty_window_panics / C10_zero_start_panics, C14)",
                "dates restricted to years 0001..9999 in generated cases (the theorems have no bound)",
@@ -103,7 +104,8 @@ LEVEL_TEXT = ("Theorems C10_each_balances, C10_each_is_pair, C10_conserve, C10_a
               "global context) state the property for every transaction (any bookings, account types, signs, decimals), every "
               "interval and every window start <= end, about the repaired expansion txn_create_fixed; C10_equity_refuted shows "
               "that the pinned expansion violates conservation and accrual-nets-to-zero; C10_verdict_sound ties the executable "
-              "clauses evaluated on the Go output to the statements.")
+              "clauses evaluated on the Go output to the statements and C10_model_meets_spec shows that the executable "
+              "statement accepts everything the repaired model returns.")
 LEVEL_NOTE = ("Trusted: Coq kernel + vm_compute; extraction and the OCaml driver; the Go harness; that Model/Ledger.v "
               "(expand_posting_gen rebook_fixed) is transaction.go after findings/C10-equity-dropped.patch and Model/Dec.v is "
               "shopspring/decimal (hand-written, validated by string equality of every generated transaction on each run). "
